@@ -102,7 +102,7 @@ def gen_history(rng, n, cell, length):
             toks.append("v%d:%d,%d" % (i, a, b))
             st.append(dict(n=max(0, min(b, s["n"]) - a), a=s["a"], cell=s["cell"]))
         elif c < 0.40:
-            js = [rng.randrange(len(st)) for _ in range(rng.randrange(1, 3))]
+            js = [rng.randrange(len(st)) for _ in range(rng.randrange(0, 3))]     # none: md.join of a one-element list
             toks.append("j%d:%s" % (i, ",".join(map(str, js))))
             if all(st[j]["a"] == s["a"] and st[j]["cell"] == s["cell"] for j in js):
                 st.append(dict(n=s["n"] + sum(st[j]["n"] for j in js), a=s["a"], cell=s["cell"]))
@@ -204,10 +204,13 @@ class Runner:
                 new = t.slice(slice(a, b), copy=False)
                 newsh = sh[i][a:b]
             elif op == "j":
-                js = [int(x) for x in rest[0].split(",")]
+                js = [int(x) for x in rest[0].split(",") if x != ""]
                 if all(j < len(pool) for j in js):
                     try:
-                        new = t.join([pool[j] for j in js], check_topology=False)
+                        if not js or (i + len(pool)) % 2 == 0:
+                            new = md.join([t] + [pool[j] for j in js], check_topology=False)
+                        else:
+                            new = t.join([pool[j] for j in js], check_topology=False)
                         newsh = np.concatenate([sh[i]] + [sh[j] for j in js])
                         copied = True
                         if not np.array_equal(new.time, np.concatenate([t.time] + [pool[j].time for j in js])):
